@@ -14260,6 +14260,12 @@ void
 O_<TN_, TA_, TH_, TS_...>::deepRequest(Control& control,
 									   const Request request) noexcept
 {
+	// a request addressed to the region itself re-targets every sub-state:
+	// mark them all as requested so that guards are consulted for all of them
+	ProngBits requested = orthoRequested(control);
+	for (Prong i = 0; i < WIDTH; ++i)
+		requested.set(i);
+
 	switch (request.type) {
 	case TransitionType::CHANGE:
 		deepRequestChange	(control, request);
